@@ -6,9 +6,10 @@
 (* as one JSON vector per operation.                                       *)
 (*                                                                         *)
 (*  jar   tables of 1..4 nests for the classes p/A p/B p/C p/D: per nest   *)
-(*        nine kind variants (inner without / with absent / with present   *)
-(*        enclosing method; anonymous 1.., 0, with method; local with      *)
-(*        present / absent / no method) x class present / absent x         *)
+(*        eleven kind variants (inner without / with absent / with present *)
+(*        / with differently typed enclosing method; anonymous 1.., 0,     *)
+(*        with method; local with present / absent / differently typed /   *)
+(*        no method) x class present / absent x                            *)
 (*        enclosing class p/T (present), p/X (missing) or an earlier nest  *)
 (*        (chains of depth 1..4), custom and derived inner names, table    *)
 (*        reversed; the jar: p/T, u/U and the present classes, referring   *)
@@ -37,10 +38,11 @@ UU == "u/U"
 K == <<"p/A", "p/B", "p/C", "p/D">>
 MethP == <<"em", "(Lp/B;)V">>          \* declared by every class of the jar
 MethA == <<"nx", "(Lp/A;)V">>          \* declared nowhere
+MethD == <<"em", "()V">>               \* a declared name with another descriptor: declared nowhere
 Acc == <<1, 10, 16392, 0>>
 
 (* ---- parameters -> values ---- *)
-KV9 == {"inn", "innA", "innP", "an1", "an0", "anM", "locP", "locA", "loc0"}
+KV9 == {"inn", "innA", "innP", "innD", "an1", "an0", "anM", "locP", "locA", "locD", "loc0"}
 EnclName(en) == IF en = 0 THEN TT ELSE IF en = 9 THEN XX ELSE K[en]
 NestOfParam(i, p) ==
     LET cls == K[i]
@@ -49,11 +51,13 @@ NestOfParam(i, p) ==
     IN CASE p.kv = "inn" -> NestRec(cls, encl, <<>>, Simple(cls), Acc[i])            \* derived inner name
          [] p.kv = "innA" -> NestRec(cls, encl, MethA, "I" \o d, Acc[i])             \* custom inner name
          [] p.kv = "innP" -> NestRec(cls, encl, MethP, "I" \o d, Acc[i])
+         [] p.kv = "innD" -> NestRec(cls, encl, MethD, "J" \o d, Acc[i])
          [] p.kv = "an1" -> NestRec(cls, encl, <<>>, d, Acc[i])
          [] p.kv = "an0" -> NestRec(cls, encl, <<>>, "0", Acc[i])
          [] p.kv = "anM" -> NestRec(cls, encl, MethP, "1" \o d, Acc[i])
          [] p.kv = "locP" -> NestRec(cls, encl, MethP, d \o "L" \o d, Acc[i])
          [] p.kv = "locA" -> NestRec(cls, encl, MethA, d \o "Loc", Acc[i])
+         [] p.kv = "locD" -> NestRec(cls, encl, MethD, d \o "Ld", Acc[i])
          [] p.kv = "loc0" -> NestRec(cls, encl, <<>>, d \o Simple(cls), Acc[i])
 Reverse(s) == [i \in 1..Len(s) |-> s[Len(s) + 1 - i]]
 NestsOf(d, rev) == LET ns == [i \in 1..Len(d) |-> NestOfParam(i, d[i])] IN IF rev THEN Reverse(ns) ELSE ns
